@@ -38,7 +38,8 @@ META = {"engine": "D loopback + doubles", "technique": "bounded progress in serv
         "level_note": "liveness is replaced by 'within %d service rounds'; the server port is re-bound after a down period "
                       "(cases where another process took it meanwhile are discarded and counted)" % BOUND}
 
-HOST = "127.0.0.1"
+from vf import net
+HOST = net.host()       # a loopback address of this process alone (see vf/net.py)
 EPS = 0.125
 
 
